@@ -148,6 +148,13 @@ class Ctx:
         os.makedirs(self.work, exist_ok=True)
         os.makedirs(EVID, exist_ok=True)
         self.thorough = tier == "thorough"
+        # replays of earlier runs of this property are stale: start clean
+        import glob
+        for f in glob.glob(os.path.join(REPLAYS, pid, "*.json")):
+            try:
+                os.remove(f)
+            except OSError:
+                pass
 
     # ---- randomness
     def rng(self, name):
